@@ -1,9 +1,253 @@
 (* C05 — call, reply and error envelopes follow the Varlink schema and round-trip.
-   Only pinned statements; proofs are in Shapes/EnvelopeProofs.v. *)
-From ZV Require Import Shapes.Envelope Shapes.Corpus.
+   Only pinned statements; proofs are in Shapes/EnvelopeProofs.v and Shapes/RoundTrip.v.
+   Models: Shapes/Envelope.v (call/ser.rs, call/de.rs, the ReplyError derive, reply.rs),
+   Shapes/Shapes.v (serde's derived visitors and serializers). *)
+From Coq Require Import Permutation.
+From ZV Require Import Shapes.Shapes Shapes.ShapesProofs Shapes.Reply Shapes.ReplyProofs
+  Shapes.Envelope Shapes.EnvelopeProofs Shapes.RoundTrip Shapes.Corpus.
+
+Local Open Scope list_scope.
+
+(* decode (encode c) = c: every method value that fits an adjacently tagged enum shape (unit and
+   struct variants, nested structs, options, sequences, borrowed and owned strings, Values), all 8
+   combinations of the three flags. *)
+Theorem C05_call_roundtrip :
+  forall tag content (vs : variants) meth (ow mo up : bool),
+  Fits (SAdj tag content vs) meth ->
+  is_flag tag = false -> is_flag content = false ->
+  needs_escape tag = false -> needs_escape content = false ->
+  exists v, enc_call (SAdj tag content vs) (mk_call meth ow mo up) = Some v /\
+            dec_call (SAdj tag content vs) v = Some (mk_call meth ow mo up).
+Proof. exact call_roundtrip. Qed.
+Print Assumptions C05_call_roundtrip.
+
+(* One object: the method type's own members, then `oneway`, `more`, `upgrade`, each only when set. *)
+Theorem C05_call_encoding_shape :
+  forall M meth (ow mo up : bool) ms0,
+  encoder M meth = Some (JObj ms0) ->
+  enc_call M (mk_call meth ow mo up) =
+  Some (JObj (ms0 ++ (if ow then [("oneway", JBool true)] else [])
+                  ++ (if mo then [("more", JBool true)] else [])
+                  ++ (if up then [("upgrade", JBool true)] else []))).
+Proof. exact call_encoding_shape. Qed.
+Print Assumptions C05_call_encoding_shape.
+
+(* Every permutation of the members of an envelope without duplicate member names decodes to the
+   same result (method types: tagged enums whose variant fields contain no `()` / nested tagged
+   enum; derived structs). *)
+Theorem C05_call_order_irrelevant :
+  forall tag content (vs : variants) ms ms',
+  tag <> content -> variants_stable vs = true ->
+  NoDup (keys ms) -> Permutation ms ms' ->
+  dec_call (SAdj tag content vs) (JObj ms') = dec_call (SAdj tag content vs) (JObj ms).
+Proof. exact call_order_irrelevant. Qed.
+Print Assumptions C05_call_order_irrelevant.
+
+Theorem C05_call_order_irrelevant_struct :
+  forall (fs : fields) ms ms',
+  NoDup (map (fun f => fst (fst f)) fs) ->
+  NoDup (keys ms) -> Permutation ms ms' ->
+  dec_call (SStruct fs) (JObj ms') = dec_call (SStruct fs) (JObj ms).
+Proof. exact call_order_irrelevant_struct. Qed.
+Print Assumptions C05_call_order_irrelevant_struct.
+
+(* Whatever the envelope (any order, duplicates included) and whatever the method type: if the
+   call decodes, the method type was given exactly the members that are not flags, in wire order -
+   it never sees a flag, and every other member is passed through. *)
+Theorem C05_flags_hidden :
+  forall M ms r,
+  dec_call M (JObj ms) = Some r ->
+  exists meth ow mo up,
+    r = mk_call meth ow mo up /\ decoder M Direct (JObj (filter nonflag ms)) = Some meth /\
+    Forall (fun kv => is_flag (fst kv) = false) (filter nonflag ms).
+Proof. exact flags_hidden. Qed.
+Print Assumptions C05_flags_hidden.
+
+(* For an envelope without duplicate member names: the flags are found in any position, an absent
+   flag is false, and the result is the method type's decoding of the other members
+   (spec_call is written with lookups only). *)
+Theorem C05_flags_anywhere_absent_false :
+  forall M ms, NoDup (keys ms) -> dec_call M (JObj ms) = spec_call M ms.
+Proof. exact dec_call_spec. Qed.
+Print Assumptions C05_flags_anywhere_absent_false.
+
+(* An error enum using the ReplyError derive encodes as {"error": "<interface>.<Variant>"} plus,
+   exactly when the variant has fields, `parameters` holding the fields under their wire names in
+   declaration order. *)
+Theorem C05_error_shape :
+  forall iface (vs : variants) i vn k (fs : fields) rs,
+  nth_error vs i = Some (vn, k, fs) ->
+  enc_error (err_shape iface vs) (RVar i rs) =
+  match k with
+  | KStruct => match enc_fields (etable fs) rs with
+               | Some ms => Some (JObj [("error", JStr (iface ++ "." ++ vn)%string); ("parameters", JObj ms)])
+               | None => None
+               end
+  | _ => match rs with
+         | [] => Some (JObj [("error", JStr (iface ++ "." ++ vn)%string)])
+         | _ => None
+         end
+  end.
+Proof. exact error_shape. Qed.
+Print Assumptions C05_error_shape.
+
+Theorem C05_error_shape_wire_names :
+  forall (fs : fields) rs ms,
+  all_plain fs = true -> enc_fields (etable fs) rs = Some ms ->
+  keys ms = map (fun f => fst (fst f)) fs.
+Proof. exact enc_fields_keys. Qed.
+Print Assumptions C05_error_shape_wire_names.
+
+Theorem C05_error_roundtrip :
+  forall iface (vs : variants) e,
+  Fits (err_shape iface vs) e ->
+  exists v, enc_error (err_shape iface vs) e = Some v /\
+            dec_error (err_shape iface vs) v = Some e /\
+            forall P, decoder vs_error_shape Ref v = None ->
+                      classify (err_shape iface vs) P v = MethodError e.
+Proof. exact error_roundtrip. Qed.
+Print Assumptions C05_error_roundtrip.
+
+(* Success replies (`parameters` and `continues` are written only when present: that is
+   reply_shape's FSkipNone + encoder): decode (encode r) = r, also through receive_reply. *)
+Theorem C05_reply_roundtrip :
+  forall P r,
+  Fits (reply_shape P) r ->
+  exists v, enc_reply P r = Some v /\ dec_reply P v = Some r /\
+            forall (vs : variants), classify (SAdj "error" "parameters" vs) P v = Success (reply_view r).
+Proof. exact reply_roundtrip. Qed.
+Print Assumptions C05_reply_roundtrip.
+
+(* The general statement behind the round trips: for EVERY shape of the language and every value
+   that fits it, under every deserializer mode. *)
+Theorem C05_roundtrip_all_shapes :
+  forall s r, Fits s r -> exists v, encoder s r = Some v /\ forall m, decoder s m v = Some r.
+Proof. exact roundtrip. Qed.
+Print Assumptions C05_roundtrip_all_shapes.
+
+(* "No parameters" is recognised whether `parameters` is absent, null or an object: a variant
+   without fields that is read leniently (what the ReplyError derive and varlink_service::Method
+   generate since d12b38a / ab57644), in any member order, next to any other members, under any
+   deserializer mode. *)
+Theorem C05_no_parameters_three_spellings :
+  forall m tag content (vs : variants) ms n i (fs : fields),
+  tag <> content -> NoDup (keys ms) ->
+  lookup tag ms = Some (JStr n) ->
+  index_of n (map (fun v => fst (fst v)) vs) = Some i ->
+  nth_error vs i = Some (n, KLenient, fs) ->
+  (lookup content ms = None \/ lookup content ms = Some JNull \/
+   exists x, lookup content ms = Some (JObj x)) ->
+  decoder (SAdj tag content vs) m (JObj ms) = Some (RVar i []).
+Proof. exact no_parameters_spellings. Qed.
+Print Assumptions C05_no_parameters_three_spellings.
+
+(* ... the standard org.varlink.service errors, through receive_reply with any caller types *)
+Theorem C05_no_parameters_standard_errors :
+  forall E P ms,
+  NoDup (keys ms) -> no_params (lookup "parameters" ms) ->
+  (lookup "error" ms = Some (JStr "org.varlink.service.PermissionDenied") ->
+   classify E P (JObj ms) = VarlinkError (RVar 4 [])) /\
+  (lookup "error" ms = Some (JStr "org.varlink.service.ExpectedMore") ->
+   classify E P (JObj ms) = VarlinkError (RVar 5 [])).
+Proof. exact standard_error_spellings. Qed.
+Print Assumptions C05_no_parameters_standard_errors.
+
+(* ... field-less variants of derived error enums, decoded directly and through receive_reply *)
+Theorem C05_no_parameters_derived_errors :
+  forall iface (vs : variants) P ms vn i (fs : fields),
+  NoDup (keys ms) -> no_params (lookup "parameters" ms) ->
+  nth_error vs i = Some (vn, KLenient, fs) ->
+  index_of (iface ++ "." ++ vn)%string (map (fun v => fst (fst v)) (qualify iface vs)) = Some i ->
+  lookup "error" ms = Some (JStr (iface ++ "." ++ vn)%string) ->
+  dec_error (err_shape iface vs) (JObj ms) = Some (RVar i []) /\
+  (decoder vs_error_shape Ref (JObj ms) = None ->
+   classify (err_shape iface vs) P (JObj ms) = MethodError (RVar i [])).
+Proof. exact derived_error_spellings. Qed.
+Print Assumptions C05_no_parameters_derived_errors.
+
+(* ... the standard method org.varlink.service.GetInfo in a call envelope *)
+Theorem C05_no_parameters_getinfo :
+  forall ms (ow mo up : bool),
+  NoDup (keys ms) -> existsb (fun m => needs_escape (fst m)) ms = false ->
+  lookup "method" ms = Some (JStr "org.varlink.service.GetInfo") ->
+  no_params (lookup "parameters" ms) ->
+  spec_flag "oneway" ms = Some ow -> spec_flag "more" ms = Some mo -> spec_flag "upgrade" ms = Some up ->
+  dec_call vs_method_shape (JObj ms) = Some (mk_call (RVar 0 []) ow mo up).
+Proof. exact getinfo_spellings. Qed.
+Print Assumptions C05_no_parameters_getinfo.
+
+(* ... proxy methods without output parameters (since 4f5ea1b) *)
+Theorem C05_no_parameters_proxy :
+  forall (vs : variants) P ms,
+  NoDup (keys ms) -> ~ In "error" (keys ms) ->
+  no_params (lookup "parameters" ms) ->
+  (lookup "continues" ms = None \/ lookup "continues" ms = Some JNull \/
+   exists b, lookup "continues" ms = Some (JBool b)) ->
+  proxy_out true (SAdj "error" "parameters" vs) P (JObj ms) = POk RUnit.
+Proof. exact proxy_unit_spellings. Qed.
+Print Assumptions C05_no_parameters_proxy.
+
+(* Of the tree as pinned the three-spellings statements were false (plain serde unit variants,
+   `()` for methods without output): witnesses. *)
+Theorem C05_refuted_before_repairs :
+  decoder (SAdj "error" "parameters" [("x.Y", KUnit, [])]) Direct
+          (JObj [("error", JStr "x.Y"); ("parameters", JObj [])]) = None /\
+  dec_call (SAdj "method" "parameters" [("org.varlink.service.GetInfo", KUnit, [])])
+           (JObj [("method", JStr "org.varlink.service.GetInfo"); ("parameters", JObj [])]) = None /\
+  decoder (reply_shape SUnit) Ref (JObj [("parameters", JObj [])]) = None.
+Proof. repeat split; vm_compute; reflexivity. Qed.
+Print Assumptions C05_refuted_before_repairs.
+
+(* ---------------------------------------------------------------- non-vacuity *)
+Ltac nodup_tac :=
+  repeat constructor; cbn [In]; intros H; repeat destruct H as [H | H]; try discriminate; exact H.
+Ltac fit_str x := exists x; split; [reflexivity | try discriminate; try reflexivity].
+Ltac fit_int z := exists z; split; [reflexivity | split; discriminate].
+
+Example C05_fits_nonvacuous :
+  Fits M_meth (RVar 2 [RStr "n"; RInt (-5); RSome (RStr "q""x")]) /\
+  Fits M_vsmethod (RVar 1 [RStr "org.example"]) /\
+  Fits E_renamed (RVar 1 [RStr "a"; RInt 3; RNone]) /\
+  Fits (reply_shape P_strict) (RStruct [RSome (RStruct [RInt 1; RStr "n"]); RSome (RBool true); RDefault]) /\
+  variants_stable [("org.example.M.Get", KStruct, [("id", u32, FPlain)])] = true.
+Proof.
+  split; [| split; [| split; [| split; [| reflexivity]]]].
+  - apply Fits_adj. exists 2, [RStr "n"; RInt (-5); RSome (RStr "q""x")].
+    split; [reflexivity |]. split; [apply str_neq; reflexivity |]. split; [nodup_tac |].
+    split; [nodup_tac |].
+    constructor; [fit_str "n" |]. constructor; [fit_int (-5)%Z |].
+    constructor; [| constructor].
+    right. exists (RStr "q""x"). split; [reflexivity |]. split; [fit_str "q""x" | discriminate].
+  - apply Fits_adj. exists 1, [RStr "org.example"].
+    split; [reflexivity |]. split; [apply str_neq; reflexivity |]. split; [nodup_tac |].
+    split; [nodup_tac |]. constructor; [fit_str "org.example" | constructor].
+  - apply Fits_adj. exists 1, [RStr "a"; RInt 3; RNone].
+    split; [reflexivity |]. split; [apply str_neq; reflexivity |]. split; [nodup_tac |].
+    split; [nodup_tac |].
+    constructor; [fit_str "a" |]. constructor; [fit_int 3%Z |]. constructor; [now left | constructor].
+  - apply Fits_struct. eexists. split; [reflexivity |]. split; [nodup_tac |].
+    constructor; [| constructor; [| constructor; [reflexivity | constructor]]].
+    + split; [reflexivity |]. right. eexists. split; [reflexivity |]. split; [| discriminate].
+      apply Fits_struct. eexists. split; [reflexivity |]. split; [nodup_tac |].
+      constructor; [fit_int 1%Z |]. constructor; [fit_str "n" | constructor].
+    + split; [reflexivity |]. right. eexists. split; [reflexivity |].
+      split; [eexists; reflexivity | discriminate].
+Qed.
 
 Example C05_nonvacuous :
-  dec_call M_meth (JObj [("more", JBool true); ("parameters", JObj [("id", JNum 4)]);
-                         ("method", JStr "org.example.M.Get")])
-  = Some (mk_call (RVar 1 [RInt 4]) false true false).
-Proof. vm_compute. reflexivity. Qed.
+  let c := mk_call (RVar 2 [RStr "n"; RInt (-5); RSome (RStr "q""x")]) true false true in
+  enc_call M_meth c
+  = Some (JObj [("method", JStr "org.example.M.Put");
+                ("parameters", JObj [("name", JStr "n"); ("value", JNum (-5)); ("note", JStr "q""x")]);
+                ("oneway", JBool true); ("upgrade", JBool true)]) /\
+  dec_call M_meth (JObj [("upgrade", JBool true);
+                         ("parameters", JObj [("note", JStr "q""x"); ("value", JNum (-5)); ("name", JStr "n")]);
+                         ("x-unknown", JArr []); ("oneway", JBool true);
+                         ("method", JStr "org.example.M.Put")]) = Some c /\
+  dec_call M_vsmethod (JObj [("parameters", JObj []); ("more", JBool true);
+                             ("method", JStr "org.varlink.service.GetInfo")])
+  = Some (mk_call (RVar 0 []) false true false) /\
+  proxy_out true E_simple P_unit (JObj [("parameters", JObj [])]) = POk RUnit /\
+  classify E_simple P_unit (JObj [("parameters", JObj []); ("error", JStr "org.example.E.Busy")])
+  = MethodError (RVar 1 []).
+Proof. cbv zeta. repeat split; vm_compute; reflexivity. Qed.
